@@ -116,6 +116,7 @@ theorem apply_eq (c : Cyc) (h : c.Inside) (o : CycOp) :
   | inc => simp only [apply, increment_eq c h, cycNet]; first | rfl | (congr 3; omega)
   | dec => simp only [apply, decrement_eq c h, cycNet]; first | rfl | (congr 3; omega)
   | adv n => simp only [apply, advance_eq c n hlt, cycNet]; first | rfl | (congr 3; omega)
+  | sub n => simp only [apply, advance_eq c (-n) hlt, cycNet]; first | rfl | (congr 3; omega)
 
 theorem run_eq (c : Cyc) (h : c.Inside) (ops : List CycOp) :
     c.run ops = .ok (c.atOffset ((c.it - c.first + cycNet ops) % (c.second - c.first))) := by
